@@ -227,7 +227,7 @@ def r07c(chk, rid='R07.c'):
                    'data handed in while the encoding (or the @charset rule) is undecided is dropped: the result differs from the one-shot result for some chunking')
         src = ast.unparse(fn)
         if not cls.startswith('Stream') or 'self.buffer' in src:
-            chk.ob(rid, CODEC, q, 'pending data is prepended before detection', 'input = self.buffer + input' in src, 'chunks are looked at in isolation')
+            chk.ob(rid, CODEC, q, 'pending data is prepended before detection', 'input = self.buffer + input' in src, 'chunks are looked at in isolation', shape=True)
     # an undecided detector always leads to buffering, whatever encoding was configured
     for cls, meth, maker in (('IncrementalDecoder', 'decode', 'codecs.getincrementaldecoder'), ('StreamReader', 'decode', 'codecs.getreader')):
         q = f'{cls}.{meth}'
